@@ -3,6 +3,7 @@
 // cell_count, cell_content_begin, slot_get/slot_set, free_space, shift_slots_*, leaf_cell_key_and_payload,
 // internal_cell_key_and_right_child, leaf_lower_bound, internal_child_for_key, leaf_insert_at, delete_from_leaf}.
 //@unit c26_page
+//@rlimit 50
 //@property C26
 use vstd::prelude::*;
 verus! {
